@@ -91,7 +91,8 @@ def trig_mlprop(s):
 
 
 def trig_mldefault(s):
-    return any(c.default and c.default[0] in ('str', 'expr') and '\n' in c.default[1] for t in s.tables for c in t.columns)
+    return any(c.default and c.default[0] in ('str', 'expr') and '\n' in c.default[1] for t in s.tables for c in t.columns) or \
+        any(ix.name and '\n' in ix.name for t in s.tables for ix in t.indexes)
 
 
 def trig_typequote(s):
@@ -143,7 +144,7 @@ ZONES = {
                                                         'roundtrip:.enums[].items[].note', 'fixpoint', 'sql')),
     'multiline_value': ('F-MLPROP', trig_mlprop, ('roundtrip:.tables[].props', 'roundtrip:.tables[].columns[].props',
                                                   'roundtrip:.project.items', 'fixpoint')),
-    'multiline_default': ('F-MLDEFAULT', trig_mldefault, ('reparse', 'roundtrip:.tables[].columns[].default', 'fixpoint', 'sql')),
+    'multiline_default': ('F-MLDEFAULT', trig_mldefault, ('reparse', 'roundtrip:.tables[].columns[].default', 'roundtrip:.tables[].indexes[].name', 'fixpoint', 'sql')),
     'quoted_type': ('F-TYPEQUOTE', trig_typequote, ('reparse', 'roundtrip:.tables[].columns[]')),
     'float_exp': ('F-FLOATEXP', trig_floatexp, ('reparse',)),
     'triple_quote_text': ('F-TRIPLE', trig_triple, ('reparse', 'roundtrip:')),
